@@ -23,9 +23,32 @@ thread_local! {
 }
 
 fn normalise_message(m: &str) -> String {
+    // mask input-dependent parts: digits, quoted and back-quoted excerpts
+    let mut masked = String::new();
+    let mut chars = m.chars().peekable();
+    while let Some(c) = chars.next() {
+        if c == '`' || c == '\'' || c == '"' {
+            let mut found_end = false;
+            let mut skipped = String::new();
+            for d in chars.by_ref() {
+                if d == c {
+                    found_end = true;
+                    break;
+                }
+                skipped.push(d);
+            }
+            masked.push(c);
+            masked.push('_');
+            if found_end {
+                masked.push(c);
+            }
+        } else {
+            masked.push(c);
+        }
+    }
     let mut out = String::new();
     let mut last_digit = false;
-    for c in m.chars() {
+    for c in masked.chars() {
         if c.is_ascii_digit() {
             if !last_digit {
                 out.push('#');
@@ -36,9 +59,44 @@ fn normalise_message(m: &str) -> String {
             out.push(c);
         }
     }
-    // keep it short and single-line
     let out = out.replace('\n', " ");
     out.chars().take(160).collect()
+}
+
+/// Finds the name of the core library function whose definition contains the given line, by
+/// scanning backwards for `add_fn("name"` (robust against line shifts, unlike a line number)
+fn core_lib_entry(rel_file: &str, line: usize) -> Option<String> {
+    let text = std::fs::read_to_string(format!("/repo/{rel_file}")).ok()?;
+    let lines: Vec<&str> = text.lines().collect();
+    let module = rel_file
+        .rsplit('/')
+        .next()
+        .unwrap_or("")
+        .trim_end_matches(".rs")
+        .to_string();
+    let mut i = line.min(lines.len());
+    while i > 0 {
+        i -= 1;
+        let l = lines[i];
+        if let Some(p) = l.find("add_fn(\"") {
+            let rest = &l[p + 8..];
+            if let Some(q) = rest.find('"') {
+                return Some(format!("{module}.{}", &rest[..q]));
+            }
+        }
+        let t = l.trim_start();
+        if t.starts_with("fn ") || t.starts_with("pub fn ") || t.starts_with("pub(crate) fn ") {
+            let name: String = t
+                .split("fn ")
+                .nth(1)
+                .unwrap_or("")
+                .chars()
+                .take_while(|c| c.is_alphanumeric() || *c == '_')
+                .collect();
+            return Some(format!("{module}::{name}"));
+        }
+    }
+    None
 }
 
 fn strip_repo(path: &str) -> Option<String> {
@@ -78,13 +136,28 @@ pub fn install() {
         }
         let mut repo_file = String::new();
         let mut repo_function = String::new();
+        let mut entry = String::new();
+        let mut outer_entry = String::new();
         for (f, at) in &frames {
             if let Some(rel) = strip_repo(at) {
-                // ignore frames of the harness itself
-                let file = rel.rsplitn(3, ':').last().unwrap_or("").to_string();
-                repo_file = file;
-                repo_function = f.clone();
-                break;
+                let mut parts = rel.rsplitn(3, ':');
+                let _col = parts.next();
+                let line: usize = parts.next().and_then(|l| l.parse().ok()).unwrap_or(0);
+                let file = parts.next().unwrap_or("").to_string();
+                // crates/memory only holds borrow/pointer wrappers: the site of interest is the caller
+                if repo_file.is_empty() && !file.starts_with("crates/memory/") {
+                    repo_file = file.clone();
+                    repo_function = f.clone();
+                }
+                if file.contains("/core_lib/") {
+                    if let Some(e) = core_lib_entry(&file, line) {
+                        if entry.is_empty() {
+                            entry = e;
+                        } else {
+                            outer_entry = e;
+                        }
+                    }
+                }
             }
         }
         if repo_file.is_empty() {
@@ -92,16 +165,23 @@ pub fn install() {
                 repo_file = rel;
             }
         }
-        // strip generic hashes from the function name
+        // strip generic hashes and generic arguments from the function name
         if let Some(i) = repo_function.rfind("::h") {
             if repo_function[i + 3..].chars().all(|c| c.is_ascii_hexdigit()) {
                 repo_function.truncate(i);
             }
         }
+        if let Some(i) = repo_function.find('<') {
+            repo_function.truncate(i);
+        }
+        if !outer_entry.is_empty() && outer_entry != entry {
+            entry = format!("{entry}<{outer_entry}");
+        }
         let signature = format!(
-            "{}|{}|{}",
+            "{}|{}|{}|{}",
             repo_file,
             repo_function,
+            entry,
             normalise_message(&message)
         );
         let backtrace_head = frames
